@@ -396,7 +396,7 @@ def ascii_table(
                     if i == limit:
                         yield "\001PUNCm...\001OFFm"
                     if i >= limit:
-                        i += t.rowcount - (2 * limit)
+                        i += table.rowcount - (2 * limit)
                 formatted = [type_formatter(v, w, t) for v, w, t in zip(row, col_width, col_types)]
                 yield (
                     "│\001TYPEm"
